@@ -6,7 +6,7 @@ import numpy as np
 from xdsl.context import Context
 from xdsl.dialects import arith, builtin, func, linalg, memref
 from xdsl.dialects.memref import MemorySpaceCastOp, SubviewOp
-from xdsl.ir import Attribute, Operation, OpResult
+from xdsl.ir import Attribute, Block, Operation, OpResult
 from xdsl.irdl import Operand
 from xdsl.parser import BytesAttr, DenseIntOrFPElementsAttr, MemRefType
 from xdsl.passes import ModulePass
@@ -89,6 +89,17 @@ def transform_constant(source: DenseIntOrFPElementsAttr, dest_layout: Attribute)
     new_value = DenseIntOrFPElementsAttr(new_type, data)
 
     return new_value
+
+
+def get_ancestor_in_block(op: Operation, block: Block | None) -> Operation:
+    """
+    Get the operation in the block that is, or contains, the given operation.
+    """
+    while op.parent_block() is not block:
+        parent_op = op.parent_op()
+        assert parent_op is not None
+        op = parent_op
+    return op
 
 
 def get_source_operand(op: MemorySpaceCastOp | LayoutCast) -> Operand:
@@ -531,9 +542,10 @@ class RealizeMemrefCasts(RewritePattern):
             else:
                 is_input = True
             if is_input:
-                # insert copy op
+                # insert copy op, at the level of the cast: a copy inside of a nested region (e.g. a loop
+                # body) is not executed for all the uses that follow if the region is not executed
                 copy_op = memref.CopyOp(source_op.source, op.dest)
-                rewriter.insert_op(copy_op, InsertPoint.before(use_op))
+                rewriter.insert_op(copy_op, InsertPoint.before(get_ancestor_in_block(use_op, op.parent_block())))
                 break
 
         # insert "copy from" for last use as output
@@ -553,9 +565,9 @@ class RealizeMemrefCasts(RewritePattern):
                 # don't know if input or output, default to yes
                 is_output = True
             if is_output:
-                # insert copy op
+                # insert copy op, at the level of the cast (see above)
                 copy_op = memref.CopyOp(op.dest, source_op.source)
-                rewriter.insert_op(copy_op, InsertPoint.after(use_op))
+                rewriter.insert_op(copy_op, InsertPoint.after(get_ancestor_in_block(use_op, op.parent_block())))
                 break
 
         # insert all ops
